@@ -366,6 +366,11 @@ func laneE2E(c *ev.Ctx) {
 			return
 		}
 	}
+	// an explicit directory object is an object of length 0 like any other (its directory inode has a size of its own)
+	dirObj := false
+	if resp := cl.PutObject("rng", "dirobj/", nil); resp.OK() {
+		dirObj = true
+	}
 	sizes := []int64{0, 1, 2, 100, 70000}
 	bigSizes := []int64{262145, 790753}
 	n := c.Pick(500, 40000)
@@ -401,9 +406,13 @@ func laneE2E(c *ev.Ctx) {
 	queryKinds := []string{"partNumber=1", "partNumber=2", "partNumber=0", "response-content-type=text%2Fplain", "response-cache-control=no-cache", "x-id=GetObject", "versionId=null"}
 	compQuery := ""
 	comp := ""
+	useDir := false
 	one := func(id string, size int64, h string, head bool) {
 		obj := objs[size]
 		key := fmt.Sprintf("o%d", size)
+		if useDir {
+			key = "dirobj/"
+		}
 		var resp *s3c.Resp
 		method := "GET"
 		hdr := []string{"Range", h}
@@ -474,6 +483,9 @@ func laneE2E(c *ev.Ctx) {
 				c.Distinct("e2e|" + method + "|" + sizeClass(size) + "|" + e.class + "|precondition")
 				return
 			}
+		}
+		if useDir {
+			e.class += "+directory-object"
 		}
 		c.Distinct("e2e|" + method + "|" + sizeClass(size) + "|" + e.class)
 		cr := resp.Header.Get("Content-Range")
@@ -554,6 +566,16 @@ func laneE2E(c *ev.Ctx) {
 					one(id, s, h, false)
 					comp = ""
 				}
+			}
+		}
+	}
+	if dirObj {
+		for i, h := range []string{"bytes=0-", "bytes=0-0", "bytes=0-10", "bytes=5-", "bytes=-1", "bytes=1-2", "bytes=0-4095", "bytes=39-40", ""} {
+			id := fmt.Sprintf("e2e/dirobj/%d", i)
+			if c.Want(id) {
+				useDir = true
+				one(id, 0, h, i%4 == 3)
+				useDir = false
 			}
 		}
 	}
